@@ -103,6 +103,10 @@ def program(case, spell):
                     continue          # `r == recv` is not identity for descendants of non-object values (a child of "s" does not == itself)
                 lines.append(f"say(nil.try.{{|u| {src}}}.A)")
                 expect.append((f"{name} {form} {an}", "out:" + want))
+        # names owned ABOVE the forest (by the built-in prototypes of the root): `which` walks the whole chain, through a root that is not an object too
+        rootprop, rootowner = {"obj": ("values", "Obj"), "int": ("prime?", "Int"), "str": ("uc", "Str"), "arr": ("join", "Arr")}[ob["root"]]
+        lines.append(f"say([{name}.which('keys)&._name, {name}.which('proto)&._name, {name}.which('{rootprop})&._name, {name}.which('nosuchname_zq)])")
+        expect.append((f"{name} which-builtin", f'out:["Obj", "BaseObj", "{rootowner}", nil]'))
         own_public = sorted((["tag"] if ob["tagged"] else []) + [spell.get(p["n"], p["n"]) for p in case["objs"][o]["own"] if not p["n"].startswith("_")])
         lines.append(f"say({name}.keys)")
         expect.append((f"{name} keys", "out:[" + ", ".join(q(x) for x in own_public) + "]"))
